@@ -113,6 +113,10 @@ def build(scn):
         dest = EVIL
     elif mut == 'dest_absent':
         dest = None
+    elif mut == 'dest_extends_path':
+        dest = dest + '/../../admin'
+    elif mut == 'dest_extends_host':
+        dest = dest + '.attacker.example.net/'
     elif mut == 'dest_other_binding':
         dest = [u for b, u in sorted(urls.items()) if b != scn['binding']][0]
     ii = env.ts(now - 5)
@@ -133,6 +137,12 @@ def build(scn):
     key = 'kIdp1' if rtype == 'logout_sp' else 'kSp'
     sig = sb.signature_template('req1', 'sha256') if scn['sig'] != 'none' else ''
     doc = request_xml(rtype, 'req1', dest, ii, sig)
+    if mut == 'bad_enum':
+        before = doc
+        doc = doc.replace('</samlp:AuthnRequest>', '<samlp:RequestedAuthnContext Comparison="strongest"><saml:AuthnContextClassRef>%s'
+                          '</saml:AuthnContextClassRef></samlp:RequestedAuthnContext></samlp:AuthnRequest>' % sb.PASSWORD)
+        if doc == before:
+            raise fw.Machinery('bad_enum: AuthnRequest end tag not found')
     if mut == 'schema_child':
         import re
         before = doc
